@@ -38,8 +38,8 @@ def run(tier: str, seed: int, replay=None) -> int:
             "the harness restores train/eval mode after export()",
         ],
         "design": ([("SNLifeMC_struct_quick", True, 0, "struct"), ("SNLifeMC_reuse_quick", True, 0, "reuse"),
-                    ("SNLifeMC_multi_quick", True, 240, "multi"), ("SNLifeMC_life_quick", True, 0, "life"),
-                    ("SNLifeMC_names_quick", True, 300, "names"), ("SNLifeMC_fork_quick", True, 300, "fork"), ("SNLifeMC_names_prefixdot", False, 0, "names-prefixdot"),
+                    ("SNLifeMC_multi_quick", True, 240, "multi"), ("SNLifeMC_life_quick", True, 900, "life"),
+                    ("SNLifeMC_names_quick", True, 250, "names"), ("SNLifeMC_fork_quick", True, 300, "fork"), ("SNLifeMC_names_prefixdot", False, 0, "names-prefixdot"),
                     ("SNLifeMC_ref_quick", False, 0, "ref")] if q else
                    [("SNLifeMC_struct_thorough", True, 0, "struct"), ("SNLifeMC_reuse_thorough", True, 0, "reuse"),
                     ("SNLifeMC_multi_thorough", True, 4000, "multi"), ("SNLifeMC_life_thorough", True, 0, "life"),
